@@ -43,7 +43,7 @@ BoolPreds == {
     PA(<<NVar("$"), NName(<<105, 100, 120>>)>>), NArray(<<NNum(IntV(0)), NStr(kx)>>), NArray(<<>>) }
 
 \* head shapes: how a predicate list `fs` is attached
-Heads == {"name", "block", "var", "cons", "call", "laststep", "midstep", "wholepath", "ctx"}
+Heads == {"name", "block", "var", "cons", "call", "laststep", "midstep", "wholepath", "ctx", "ctxstep", "varstep"}
 Prog(h, fs) ==
     CASE h = "name"      -> PA(<<NPred(A, fs)>>)                                      \* a[p][q]      stacked
       [] h = "laststep"  -> PA(<<NName(kc), NPred(A, fs)>>)                           \* c.a[p]       per context item
@@ -52,12 +52,15 @@ Prog(h, fs) ==
       [] h = "block"     -> NPred(NBlock(<<PA(<<A>>)>>), fs)                          \* (a)[p]
       [] h = "var"       -> NPred(NVar("v"), fs)                                      \* $v[p]
       [] h = "ctx"       -> NPred(NVar(""), fs)                                       \* $[p]
+      [] h = "ctxstep"   -> PA(<<NPred(NVar(""), fs), B>>)                            \* $[p].b      a path anchored at the context item ...
+      [] h = "varstep"   -> PA(<<NPred(NVar("v"), fs), B>>)                           \* $v[p].b     ... and at a variable, while the input is another array
       [] h = "cons"      -> NPred(NArray(<<PA(<<A>>)>>), fs)                          \* [a][p]
       [] h = "call"      -> NPred(NCall(NVar("append"), <<PA(<<A>>), NArray(<<>>)>>), fs)
 \* non-path heads stack as nested predicates (F6); the parser produces that shape
 RECURSIVE Nest(_, _)
 Nest(e, fs) == IF fs = <<>> THEN e ELSE Nest(NPred(e, <<Head(fs)>>), Tail(fs))
 Prog2(h, fs) == IF h \in {"name", "laststep", "midstep"} THEN Prog(h, fs)
+                ELSE IF h \in {"ctxstep", "varstep"} THEN PA(<<Nest(Prog(h, <<Head(fs)>>).steps[1].e, fs), B>>)
                 ELSE Nest(Prog(h, <<Head(fs)>>).e, fs)
 
 Idx == <<105, 100, 120>>
@@ -65,8 +68,9 @@ DocFor(h, x) ==
     CASE h \in {"name", "block", "cons", "call"} -> Obj(<< <<ka, x>>, <<Idx, Arr(<<IntV(0), IntV(2)>>)>> >>)
       [] h \in {"laststep", "wholepath"} -> Obj(<< <<kc, Arr(<<DocA(x), DocA(Arr(<<IntV(7), IntV(8)>>))>>)>> >>)
       [] h = "midstep" -> Obj(<< <<kc, Arr(<<DocA(x), DocA(IntV(7)), DocA(x)>>)>> >>)
-      [] h \in {"var", "ctx"} -> x
-Binds(h, x) == IF h = "var" THEN << <<"v", x>> >> ELSE <<>>
+      [] h \in {"var", "ctx", "ctxstep"} -> x
+      [] h = "varstep" -> Arr(<<IntV(7), IntV(8), IntV(9)>>)
+Binds(h, x) == IF h \in {"var", "varstep"} THEN << <<"v", x>> >> ELSE <<>>
 
 Case(h, fs, x) == MkCaseB(Prog2(h, fs), DocFor(h, x), Binds(h, x))
 
@@ -90,5 +94,5 @@ Spec == Init /\ [][Next]_mcvars
 RECURSIVE Contains(_, _)
 Contains(hay, x) == JEq(hay, x) \/ (IsArr(hay) /\ \E i \in 1..Len(hay.v) : Contains(hay.v[i], x))
                     \/ (IsObj(hay) /\ \E i \in 1..Len(hay.m) : Contains(hay.m[i][2], x))
-NothingInvented == (out.o = "val" /\ out.r.t \in {"num", "str"}) => Contains(case.inp, out.r)
+NothingInvented == (out.o = "val" /\ out.r.t \in {"num", "str"}) => (Contains(case.inp, out.r) \/ \E i \in 1..Len(case.binds) : Contains(case.binds[i][2], out.r))
 =============================================================================
